@@ -31,6 +31,7 @@ import CookModel.Lemmas.MetaValidator
 import CookModel.Lemmas.DiagPlaceDocInst
 import CookModel.Lemmas.DiagEventKinds
 import CookModel.Lemmas.DiagPlaceDocQty
+import CookModel.Lemmas.DiagPlaceName
 /-
   C07  Diagnostics are sound, complete and placed on the offending construct.
 
@@ -3825,5 +3826,80 @@ example : (parseRecipe (α := Rat) C07_coreEnv ">> source: grandma\n\nUse #pot{1
     [⟨.error, .parse, "cookware-unit", [⟨30, 33⟩]⟩] := by decide +kernel
 example : (parseRecipe (α := Rat) C07_coreEnv ">> source: grandma\n\nUse ~{5} now\n".toList).diags.toList =
     [⟨.error, .parse, "timer-missing-unit", [⟨27, 27⟩]⟩] := by decide +kernel
+
+/-! ### Components without name (wave 8): `#{}`, `@{1%g}`, `#{2}`
+
+  `check_empty_name` runs right after `parse_alias`, before the modifiers and the quantity are read, so
+  `empty-name:*` is the FIRST diagnostic of the component.  `Lemmas/DiagPlaceName.lean`. -/
+
+/-- **Empty name, the remaining forms, wherever the component stands** (not followed by `(`; blank name tokens:
+    `isTextEmpty` of the name text assembled at the name offset).
+    * cookware without quantity `# mods {}` (plain modifier tokens): EXACTLY `empty-name:cookware` (error, parse;
+      labelled with the span of the blank name text), then one `duplicate-modifier` per repeated modifier token and
+      `cookware-recipe-modifier` iff `@` is among them, then the item;
+    * ingredient with a quantity `@{Q}` (no modifiers), for any exact reading `l` / `R` of the quantity tokens:
+      EXACTLY `empty-name:ingredient`, then `l`, then the ingredient carrying the quantity read (`@{1%g}`: `l = []`);
+    * cookware with a quantity `#{Q}`: `empty-name:cookware`, `l`, `cookware-unit` iff the quantity read has a
+      unit, then the item.
+    (`@{}` is `C07_planted_constructs` (5).)  All labels lie inside the construct. -/
+theorem C07_planted_empty_name_family (T A rest : List Tok) (cs : CharSpec) (e : Ext) (hw : WF T) (tm : Tok)
+    (nameT : List Tok) (tob : Tok) (Q : List Tok) (tcb : Tok)
+    (ha : e.has Gen.EXT_COMPONENT_ALIAS = false ∨ ∀ t ∈ nameT, t.kind ≠ .or) :
+    (∀ ms : List Tok, T = A ++ (c07p_comp tm ms nameT tob Q tcb ++ rest) →
+      PlShape e .hash tm ms nameT tob Q tcb rest → SimpleMods ms → (∀ t ∈ Q, isPadK t = true) →
+      (buildText (offAt T (A.length + 1 + ms.length)) nameT).isTextEmpty cs = true →
+      PlPieceAt (α := α) T cs e A ⟨c07p_comp tm ms nameT tob Q tcb, fun evs =>
+        evs = [.error ⟨.error, .parse, "empty-name:cookware",
+            [(buildText (offAt T (A.length + 1 + ms.length)) nameT).span]⟩] ++ dupEvs ms ++ recipeModEvs ms ++
+          [.cookware ⟨⟨simpleFlags ms (offAt T (A.length + 1)),
+            buildText (offAt T (A.length + 1 + ms.length)) nameT, none, none, none⟩,
+          ⟨offAt T A.length, offAt T (A.length + (c07p_comp tm ms nameT tob Q tcb).length)⟩⟩]⟩) ∧
+    (∀ (l : List (Ev α)) (R : ParsedQuantity α → Prop), T = A ++ (c07p_comp tm [] nameT tob Q tcb ++ rest) →
+      (buildText (offAt T (A.length + 1)) nameT).isTextEmpty cs = true → (∃ t ∈ Q, isPadK t = false) →
+      (∀ sq : BP α, sq.cs = cs → sq.ext = e →
+        Sat (parseQuantity (α := α) Q) sq (fun r s' => Pushed l sq s' ∧ R r)) →
+      (PlShape e .at tm [] nameT tob Q tcb rest →
+        PlPieceAt T cs e A ⟨c07p_comp tm [] nameT tob Q tcb, fun evs => ∃ q : ParsedQuantity α, R q ∧
+          evs = .error ⟨.error, .parse, "empty-name:ingredient",
+              [(buildText (offAt T (A.length + 1)) nameT).span]⟩ ::
+            l ++ [.ingredient ⟨⟨⟨Modifiers.empty, Span.pos (offAt T (A.length + 1))⟩, none,
+            buildText (offAt T (A.length + 1)) nameT, none, some q.quantity, none⟩,
+            ⟨offAt T A.length, offAt T (A.length + (c07p_comp tm [] nameT tob Q tcb).length)⟩⟩]⟩) ∧
+      (PlShape e .hash tm [] nameT tob Q tcb rest →
+        PlPieceAt T cs e A ⟨c07p_comp tm [] nameT tob Q tcb, fun evs => ∃ q : ParsedQuantity α, R q ∧
+          evs = .error ⟨.error, .parse, "empty-name:cookware",
+              [(buildText (offAt T (A.length + 1)) nameT).span]⟩ ::
+            (l ++ c07f_cwUnitEvs q) ++ [.cookware ⟨⟨⟨Modifiers.empty, Span.pos (offAt T (A.length + 1))⟩,
+            buildText (offAt T (A.length + 1)) nameT, none, some ⟨q.quantity.val.value, q.quantity.span⟩, none⟩,
+            ⟨offAt T A.length, offAt T (A.length + (c07p_comp tm [] nameT tob Q tcb).length)⟩⟩]⟩)) :=
+  ⟨fun ms hT sh hs hQ hname => c07y_cookware_empty_name_piece T A rest cs e tm ms nameT tob Q tcb hT hw sh hs hQ ha hname,
+   fun l R hT hname hne hQ =>
+    ⟨fun sh => c07y_ingredient_empty_name_qty_piece T A rest cs e tm nameT tob Q tcb hT hw sh ha hname hne l R hQ,
+     fun sh => c07y_cookware_empty_name_qty_piece T A rest cs e tm nameT tob Q tcb hT hw sh ha hname hne l R hQ⟩⟩
+
+/-! non-vacuity: `Use #{} now` (every extension off): the hypotheses of the first clause hold on the tokens of
+    the step, and the real run (model evaluated on the document) reports exactly `empty-name:cookware` labelled
+    with the empty name position 5..5, inside the construct 4..7; `@{1%g}` gives `empty-name:ingredient` only. -/
+def C07_yToks : List Tok :=
+  [⟨.word, "Use".toList, 0⟩, ⟨.ws, [' '], 3⟩, ⟨.hash, ['#'], 4⟩, ⟨.openBrace, ['{'], 5⟩, ⟨.closeBrace, ['}'], 6⟩,
+   ⟨.ws, [' '], 7⟩, ⟨.word, "now".toList, 8⟩]
+theorem C07_yWF : WF C07_yToks :=
+  WF.of_chain (off := 0) (by simp [C07_yToks, Chain, Tok.stop, utf8Len]; decide)
+    (by intro t ht; simp [C07_yToks] at ht; rcases ht with rfl | rfl | rfl | rfl | rfl | rfl | rfl <;> simp)
+    (by simp [C07_yToks])
+example : PlPieceAt (α := Rat) C07_yToks toyCharSpec ⟨0⟩ [⟨.word, "Use".toList, 0⟩, ⟨.ws, [' '], 3⟩]
+    ⟨c07p_comp ⟨.hash, ['#'], 4⟩ [] [] ⟨.openBrace, ['{'], 5⟩ [] ⟨.closeBrace, ['}'], 6⟩, fun evs =>
+      evs = [.error ⟨.error, .parse, "empty-name:cookware", [⟨5, 5⟩]⟩,
+        .cookware ⟨⟨⟨Modifiers.empty, Span.pos 5⟩, buildText 5 [], none, none, none⟩, ⟨4, 7⟩⟩]⟩ :=
+  (C07_planted_empty_name_family (α := Rat) C07_yToks [⟨.word, "Use".toList, 0⟩, ⟨.ws, [' '], 3⟩]
+    [⟨.ws, [' '], 7⟩, ⟨.word, "now".toList, 8⟩] toyCharSpec ⟨0⟩ C07_yWF ⟨.hash, ['#'], 4⟩ [] ⟨.openBrace, ['{'], 5⟩ []
+    ⟨.closeBrace, ['}'], 6⟩ (Or.inl rfl)).1 [] rfl
+    ⟨rfl, Or.inl ⟨rfl, rfl⟩, (by intro t h; cases h), rfl, (by intro t h; cases h), rfl,
+      (by intro t h; simp at h; subst h; decide)⟩
+    (by intro t h; cases h) (by intro t h; cases h) (by decide)
+example : (parseRecipe (α := Rat) C07_coreEnv "Use #{} now\n".toList).diags.toList =
+    [⟨.error, .parse, "empty-name:cookware", [⟨5, 5⟩]⟩] := by decide +kernel
+example : (parseRecipe (α := Rat) C07_coreEnv "Use @{1%g} now\n".toList).diags.toList =
+    [⟨.error, .parse, "empty-name:ingredient", [⟨5, 5⟩]⟩] := by decide +kernel
 
 end Cook
